@@ -511,7 +511,7 @@ func partB(r *lib.Run) {
 	}
 	defer refused.Release()
 
-	n := r.N(160, 4000)
+	n := r.N(160, 3000)
 	var fallbackUsed, backendAnswered, errorsNoFallback, cachedServed, bursts int
 	for i := 0; i < n; i++ {
 		lite.ResetPingCache()
@@ -653,7 +653,7 @@ func TestC32(t *testing.T) {
 	r.Assume("call/return/fetch stamps come from one atomic counter at the client boundary; virtual times from the synctest bubble clock, which is also the cache's injected clock")
 	r.Assume("hook lite.VerifNewPingCache builds the cache exactly like the package-level pingCache (newPingStatusCache(now, new(singleflight.Group)))")
 
-	nHist := r.N(2000, 100000)
+	nHist := r.N(2000, 60000)
 	workers := 8
 	var total stats
 	var mu sync.Mutex
